@@ -213,6 +213,15 @@ func stressChild(args []string) int {
 				kmu.Lock()
 				out.CommitsByKind[kind]++
 				kmu.Unlock()
+				if w == 0 && i%1500 == 1499 {
+					// flush + compact while readers and the other writer are active
+					// (also drops the thousands of shadowed versions that make pebble
+					// iterators crawl)
+					eng.CompactRange(engine.CRange{Start: []byte{0}, Limit: []byte{0xff, 0xff}})
+					kmu.Lock()
+					out.CommitsByKind["(compactions)"]++
+					kmu.Unlock()
+				}
 			}
 			for g, v := range pver {
 				atomic.StoreUint64(&lastVer[g], v)
